@@ -2,7 +2,7 @@
 import re
 
 from .. import builtins as B
-from ..analysis import Branches, Origins, blocks_separate, edge_dominates, fmt_terms, reach_avoiding
+from ..analysis import Branches, Origins, blocks_separate, edge_dominates, fmt_terms, reach_avoiding, closure_capture_origins
 from ..interp import CTX, DATA, INTERP, NODE, Interp
 
 fs = frozenset
@@ -122,15 +122,12 @@ def check_runtime_flow(ctx, lib):
                 if t["callee"] == "Expression::<'a>::new":
                     co = Origins(c, lib)
                     a = [co.of_operand(x) for x in t["args"]]
-                    # third argument is the captured `self`
-                    dbg = {d["name"]: d.get("place") for d in c.j["debug"]}
-                    selfp = dbg.get("self")
-                    ok = a[1] == {("param", 2)} and selfp is not None and \
-                        all(x[0] == "field" and x[1] == ("closure_env",) for x in a[2]) and \
-                        all(x[0] == "field" and x[1] == ("closure_env",) for x in a[0])
-                    if ok:
-                        idx_self = [e["f"] for e in selfp["p"] if isinstance(e, dict) and "f" in e][0]
-                        ok = all(x[2] == str(idx_self) for x in a[2])
+                    # third argument is the captured `self` of Runtime::compile (resolved through the
+                    # closure aggregate in the parent body, not by variable name)
+                    caps = closure_capture_origins(lib, rc, c.deff)
+                    ok = a[1] == {("param", 2)} and caps is not None and bool(a[2]) and \
+                        all(x[0] == "field" and x[1] == ("closure_env",) and str(x[2]).isdigit() and int(x[2]) < len(caps)
+                            and caps[int(x[2])] == {("param", 1)} for x in a[2])
         ctx.check(ok, rule, "compile-binds-self", "Runtime::compile stores the compiling runtime (self) in the Expression", rc.span)
     sb = ctx.fn("Expression::<'a>::search", rule=rule)
     if sb is not None:
